@@ -368,6 +368,10 @@ func (w *tableWorld) Run(c *Ctx) {
 	// horizon
 	for c.NowMs() < g.horizonMs && !c.Stopped() {
 		simrt.Sleep(0, 500*time.Millisecond)
+		if w.mon.handsOpened > 300 {
+			c.Inconc("hand_cap")
+			break
+		}
 	}
 	if c.Stopped() {
 		return
@@ -524,9 +528,9 @@ func (w *tableWorld) clientLoop(cl *tclient) {
 func (w *tableWorld) think(cl *tclient) {
 	var d int
 	if w.inFaultWindow() {
-		d = []int{0, 0, 5, 50, 200, 800, 2500, 9000}[cl.st.Draw(8)]
+		d = []int{2, 0, 5, 50, 200, 800, 2500, 9000}[cl.st.Draw(8)]
 	} else {
-		d = []int{0, 5, 50, 200}[cl.st.Draw(4)]
+		d = []int{2, 5, 50, 200}[cl.st.Draw(4)]
 	}
 	if d > 0 {
 		simrt.Sleep(0, time.Duration(d)*time.Millisecond)
